@@ -540,6 +540,39 @@ func panicSite(stderr string) (kind, msg, fn, where, stack string) {
 			firstOther = name + " " + loc
 		}
 	}
+	if strings.Contains(msg, "stack overflow") {
+		// runaway recursion: whichever function happened to run when the stack
+		// ended is an accident; the recursive one is the library function that
+		// fills the printed frames
+		count := map[string]int{}
+		loc := map[string]string{}
+		for i := g + 1; i < len(lines) && lines[i] != ""; i++ {
+			l := lines[i]
+			if strings.HasPrefix(l, "\t") || !strings.HasPrefix(l, frugalPkg) {
+				continue
+			}
+			name := l
+			if k := strings.LastIndex(name, "("); k > 0 {
+				name = name[:k]
+			}
+			name = strings.TrimPrefix(name, frugalPkg)
+			count[name]++
+			if loc[name] == "" && i+1 < len(lines) {
+				if m := lineRe.FindStringSubmatch(lines[i+1]); m != nil {
+					loc[name] = filepath.Base(m[1]) + ":" + m[2]
+				}
+			}
+		}
+		best := ""
+		for n, c := range count {
+			if c > count[best] || (c == count[best] && n < best) {
+				best = n
+			}
+		}
+		if best != "" && count[best] > 3 {
+			fn, where = best, loc[best]
+		}
+	}
 	if fn == "" && firstOther != "" {
 		fs := strings.SplitN(firstOther, " ", 2)
 		fn, where = fs[0], fs[1]
